@@ -35,6 +35,9 @@ TRANSPARENT = {
     "std::option::Option::expect": (0, (("f", 0),)),
     "std::option::Option::as_ref": (0, ()),
     "std::result::Result::as_ref": (0, ()),
+    "std::result::Result::err": (0, ()),
+    "std::option::Option::copied": (0, ()),
+    "std::option::Option::cloned": (0, ()),
     "std::option::Option::as_mut": (0, ()),
     "std::convert::Into::into": (0, ()),
     "<T as std::convert::Into<U>>::into": (0, ()),
@@ -534,6 +537,62 @@ PRED_TRUE_DISCR = {"is_ok": 0, "is_err": 1, "is_some": 1, "is_none": 0, "is_brea
 BRANCH_CALLS = ("std::ops::Try::branch",)
 
 
+def _deref_operand(fn, a, limit=6):
+    """`&x` / `&&x` (a temporary holding a reference) -> the operand x it refers to; constants stay as they are"""
+    for _ in range(limit):
+        l = op_local(a)
+        if l is None:
+            return a
+        ds = [x for x in fn.defs().get(l, []) if not fn.is_cleanup(x[0])]
+        if len(ds) != 1 or ds[0][1] is None:
+            return a
+        rv = ds[0][2]["rv"]
+        if rv["r"] in ("ref", "raw") and not [e for e in rv["pl"].get("p", []) if e != "*"]:
+            a = {"k": "cp", "pl": {"l": rv["pl"]["l"]}}
+            if "*" not in rv["pl"].get("p", []):
+                return a
+            continue
+        if rv["r"] == "use":
+            a = rv["a"][0]
+            if a.get("k") == "c":
+                if "pv" in a and "v" not in a:
+                    # a promoted `&0` / `&Ordering::Less`: the value it points to
+                    a = {"k": "c", "t": str(a.get("t", "")).lstrip("&"), "v": a["pv"], "s": str(a["pv"]), **({"pvariant": a["pvariant"]} if a.get("pvariant") else {})}
+                return a
+            continue
+        return a
+    return a
+
+
+def _ordering_test(fn, call, nm):
+    """`a.cmp(&b) != Ordering::Less` and friends: (op, a, b) of the plain comparison it stands for, or None"""
+    if not (nm.endswith("::eq") or nm.endswith("::ne")) or len(call["args"]) != 2:
+        return None
+    sides = [_deref_operand(fn, x) for x in call["args"]]
+    var = None
+    other = None
+    for i, sd in enumerate(sides):
+        pv = sd.get("pvariant") if sd.get("k") == "c" else None
+        if pv in ("Less", "Equal", "Greater"):
+            var, other = pv, sides[1 - i]
+    if var is None or op_local(other) is None:
+        return None
+    ds = [x for x in fn.defs().get(op_local(other), []) if not fn.is_cleanup(x[0])]
+    if len(ds) != 1 or ds[0][1] is not None or strip_generics(ds[0][2].get("callee") or "") not in ("std::cmp::Ord::cmp",):
+        return None
+    a_, b_ = [_deref_operand(fn, x) for x in ds[0][2]["args"][:2]]
+    eq = nm.endswith("::eq")
+    op_ = {("Less", True): "Lt", ("Less", False): "Ge", ("Greater", True): "Gt", ("Greater", False): "Le", ("Equal", True): "Eq", ("Equal", False): "Ne"}[(var, eq)]
+    if a_.get("k") == "c" and b_.get("k") != "c":
+        op_, a_, b_ = {"Lt": "Gt", "Le": "Ge", "Gt": "Lt", "Ge": "Le", "Eq": "Eq", "Ne": "Ne"}[op_], b_, a_
+    return op_, a_, b_
+
+
+# discriminant with which the call panics
+_UNWRAPS = {"std::result::Result::unwrap": 1, "std::result::Result::expect": 1, "std::option::Option::unwrap": 0, "std::option::Option::expect": 0,
+            "std::result::Result::unwrap_err": 0, "std::result::Result::expect_err": 0}
+
+
 def switch_labels(fn, b):
     """For a SwitchInt terminator of block b: list of (target_block, label).
     label is a dict with 'kind' in {variant, cmp, pred, val, unknown}."""
@@ -574,9 +633,27 @@ def switch_labels(fn, b):
                                 "variant": _remaining_variant(fn, adt, seen)}))
             return out
         if rv["r"] == "bin" and rv["op"] in ("Lt", "Le", "Gt", "Ge", "Eq", "Ne"):
+            op_, a_, b_ = rv["op"], rv["a"][0], rv["a"][1]
+            if op_ in ("Eq", "Ne"):
+                # `p == ptr::null_mut()` is `p.is_null()`
+                def _is_null_ptr(o):
+                    lo = op_local(o)
+                    if lo is None:
+                        return o.get("k") == "c" and str(o.get("t", "")).startswith("*") and o.get("v") == 0
+                    dn = [x for x in fn.defs().get(lo, []) if not fn.is_cleanup(x[0])]
+                    return len(dn) == 1 and dn[0][1] is None and strip_generics(callee_name(dn[0][2])) in ("std::ptr::null_mut", "std::ptr::null")
+                ptr_side = b_ if _is_null_ptr(a_) else (a_ if _is_null_ptr(b_) else None)
+                if ptr_side is not None:
+                    for v, tb in arms:
+                        out.append((tb, {"kind": "pred", "pred": "is_null", "arg": ptr_side, "truth": bool(int(v)) if op_ == "Eq" else not bool(int(v)), "def_block": d[0]}))
+                    out.append((other, {"kind": "pred", "pred": "is_null", "arg": ptr_side, "truth": op_ == "Eq", "def_block": d[0]}))
+                    return out
+            if a_.get("k") == "c" and b_.get("k") != "c":
+                # `0 > x` is `x < 0`: the constant goes to the right, so that rules read one spelling
+                op_, a_, b_ = {"Lt": "Gt", "Le": "Ge", "Gt": "Lt", "Ge": "Le", "Eq": "Eq", "Ne": "Ne"}[op_], b_, a_
             for v, tb in arms:
-                out.append((tb, {"kind": "cmp", "op": rv["op"], "a": rv["a"][0], "b": rv["a"][1], "truth": bool(int(v)), "def_block": d[0]}))
-            out.append((other, {"kind": "cmp", "op": rv["op"], "a": rv["a"][0], "b": rv["a"][1], "truth": True, "def_block": d[0]}))
+                out.append((tb, {"kind": "cmp", "op": op_, "a": a_, "b": b_, "truth": bool(int(v)), "def_block": d[0]}))
+            out.append((other, {"kind": "cmp", "op": op_, "a": a_, "b": b_, "truth": True, "def_block": d[0]}))
             return out
         if rv["r"] == "un" and rv["op"] == "Not":
             inner = rv["a"][0]
@@ -601,6 +678,13 @@ def switch_labels(fn, b):
             for v, tb in arms:
                 out.append((tb, {"kind": "pred", "pred": PRED_CALLS[nm], "arg": call["args"][0], "truth": bool(int(v)), "def_block": d[0]}))
             out.append((other, {"kind": "pred", "pred": PRED_CALLS[nm], "arg": call["args"][0], "truth": True, "def_block": d[0]}))
+            return out
+        oc = _ordering_test(fn, call, nm)
+        if oc is not None:
+            op_, a_, b_ = oc
+            for v, tb in arms:
+                out.append((tb, {"kind": "cmp", "op": op_, "a": a_, "b": b_, "truth": bool(int(v)), "def_block": d[0]}))
+            out.append((other, {"kind": "cmp", "op": op_, "a": a_, "b": b_, "truth": True, "def_block": d[0]}))
             return out
         for v, tb in arms:
             out.append((tb, {"kind": "callbool", "callee": nm, "args": call["args"], "truth": bool(int(v)), "def_block": d[0]}))
@@ -964,6 +1048,21 @@ class Explorer:
         """feasible (succ, env') pairs under the environment holding at the end of block b"""
         fn = self.fn
         t = fn.term(b)
+        if t["t"] == "call" and t["args"] and strip_generics(callee_name(t)) in _UNWRAPS:
+            # `r.unwrap()` where r is known to be the Err / None it was just found to be: the call panics, nothing follows
+            l = op_local(t["args"][0])
+            for _ in range(4):
+                # `let r = ..; if r.is_ok() {..} r.unwrap()` moves r into a temporary first
+                ds_ = [x for x in fn.defs().get(l, []) if not fn.is_cleanup(x[0])] if l is not None else []
+                if len(ds_) == 1 and ds_[0][1] is not None and ds_[0][2]["rv"]["r"] == "use" and not ds_[0][2]["lhs"].get("p") and \
+                        op_place(ds_[0][2]["rv"]["a"][0]) is not None and not ds_[0][2]["rv"]["a"][0]["pl"].get("p") and ("d", (l,)) not in env_after:
+                    l = ds_[0][2]["rv"]["a"][0]["pl"]["l"]
+                else:
+                    break
+            if l is not None:
+                d_ = env_after.get(("d", (self._deref_local(l),)))
+                if d_ is not None and d_ == _UNWRAPS[strip_generics(callee_name(t))]:
+                    return []
         if t["t"] != "switch":
             return [(s, env_after) for s in fn.succ(b)]
         labs = switch_labels(fn, b)
@@ -995,6 +1094,10 @@ class Explorer:
                         holds = env_after[("d", (base,))] == PRED_TRUE_DISCR[lab["pred"]]
                         if holds != lab["truth"]:
                             feasible = False
+                    elif (base,) in self.interesting_places and lab["pred"] in ("is_ok", "is_err", "is_some", "is_none"):
+                        # what the predicate established stays known (two-variant enums: not Ok is Err)
+                        dv = PRED_TRUE_DISCR[lab["pred"]]
+                        env2[("d", (base,))] = dv if lab["truth"] else 1 - dv
             elif lab["kind"] == "not":
                 l = op_local(lab["of"])
                 if l is not None and ("c", l) in env_after and bool(env_after[("c", l)]) == bool(lab["truth"]):
@@ -1006,6 +1109,11 @@ class Explorer:
             elif lab["kind"] == "val_not":
                 l = lab["place"]["l"] if not lab["place"].get("p") else None
                 if l is not None and ("c", l) in env_after and env_after[("c", l)] in lab["not"]:
+                    feasible = False
+            elif lab["kind"] == "cmp" and op_const(lab["b"]) == 0 and lab["op"] in ("Lt", "Ge"):
+                # an unsigned value is never below zero (the lower bound of a range pattern `0..=N` on a usize)
+                la = op_local(lab["a"])
+                if la is not None and fn.local_ty(la) in ("usize", "u8", "u16", "u32", "u64", "u128") and ((lab["op"] == "Lt") == bool(lab["truth"])):
                     feasible = False
             if feasible:
                 key = (tb, frozenset(env2.items()))
@@ -1296,6 +1404,11 @@ def relation_of_label(fn, lab):
         if not truth:
             rel = {"lt", "eq", "gt"} - rel
         return lab["a"], lab["b"], rel
+    if lab["kind"] == "val" and isinstance(lab.get("value"), int) and "place" in lab:
+        # `match x { 0 => .. }` / `matches!(x, 0)`: x == 0 on this edge
+        return {"k": "cp", "pl": lab["place"]}, {"k": "c", "v": lab["value"], "t": "", "s": str(lab["value"])}, {"eq"}
+    if lab["kind"] == "val_not" and len(lab.get("not", [])) == 1 and isinstance(lab["not"][0], int) and "place" in lab:
+        return {"k": "cp", "pl": lab["place"]}, {"k": "c", "v": lab["not"][0], "t": "", "s": str(lab["not"][0])}, {"lt", "gt"}
     info = ord_cmp_info(fn, lab)
     if info:
         names = {"Less": "lt", "Equal": "eq", "Greater": "gt"}
